@@ -350,6 +350,16 @@ func (l *Listener) Close() error {
 
 func (l *Listener) Addr() net.Addr { return memAddr("listener") }
 
+// IsClosed reports whether Close has been called on the listener.
+func (l *Listener) IsClosed() bool {
+	select {
+	case <-l.done:
+		return true
+	default:
+		return false
+	}
+}
+
 // Dial creates a connection; the returned ends are (client, server). The
 // server end is delivered to Accept.
 func (l *Listener) Dial() (client, server *End) {
